@@ -74,8 +74,35 @@ package messagesfactory
 //@ pred CertOK(pms *preparedmessages.PreparedMessages) = pms != nil ==> (pms.PreprepareMessage != nil ==> pms.PreprepareMessage.content != nil)
 //@   | && (!isnil(pms.PrepareMessages) ==> len(pms.PrepareMessages) >= 1)
 //@   | && (forall i int :: 0 <= i && i < len(pms.PrepareMessages) ==> pms.PrepareMessages[i] != nil && pms.PrepareMessages[i].content != nil)
+// the same, as one predicate over the builder (CertCopied) and over the reader of the built vote (ProofOfCert)
+//@ pred CertCopied(pb *protocol.PreparedProofBuilder, pms *preparedmessages.PreparedMessages) = pb != nil
+//@   | && (pms.PreprepareMessage != nil ==> pb.PreprepareBlockRef != nil && pb.PreprepareSender != nil && alive[pb.PreprepareBlockRef] && alive[pb.PreprepareSender]
+//@   |      && pb.PreprepareBlockRef.MessageType == protocol.LEAN_HELIX_PREPREPARE && pb.PreprepareBlockRef.InstanceId == pms.PreprepareMessage.content.SignedHeader().InstanceId()
+//@   |      && pb.PreprepareBlockRef.BlockHeight == pms.PreprepareMessage.content.SignedHeader().BlockHeight() && pb.PreprepareBlockRef.View == pms.PreprepareMessage.content.SignedHeader().View()
+//@   |      && pb.PreprepareBlockRef.BlockHash == pms.PreprepareMessage.content.SignedHeader().BlockHash()
+//@   |      && pb.PreprepareSender.MemberId == pms.PreprepareMessage.content.Sender().MemberId() && pb.PreprepareSender.Signature == pms.PreprepareMessage.content.Sender().Signature())
+//@   | && (!isnil(pms.PrepareMessages) ==> pb.PrepareBlockRef != nil && alive[pb.PrepareBlockRef] && pb.PrepareBlockRef.MessageType == protocol.LEAN_HELIX_PREPARE
+//@   |      && pb.PrepareBlockRef.InstanceId == pms.PrepareMessages[0].content.SignedHeader().InstanceId() && pb.PrepareBlockRef.BlockHeight == pms.PrepareMessages[0].content.SignedHeader().BlockHeight()
+//@   |      && pb.PrepareBlockRef.View == pms.PrepareMessages[0].content.SignedHeader().View() && pb.PrepareBlockRef.BlockHash == pms.PrepareMessages[0].content.SignedHeader().BlockHash()
+//@   |      && len(pb.PrepareSenders) == len(pms.PrepareMessages)
+//@   |      && (forall cj int :: 0 <= cj && cj < len(pms.PrepareMessages) ==> pb.PrepareSenders[cj] != nil && alive[pb.PrepareSenders[cj]] && pb.PrepareSenders[cj].MemberId == pms.PrepareMessages[cj].content.Sender().MemberId()
+//@   |            && pb.PrepareSenders[cj].Signature == pms.PrepareMessages[cj].content.Sender().Signature()))
+//@ pred ProofOfCert(p *protocol.PreparedProof, pms *preparedmessages.PreparedMessages) =
+//@   | (pms.PreprepareMessage != nil ==> p.PreprepareBlockRef().MessageType() == protocol.LEAN_HELIX_PREPREPARE && p.PreprepareBlockRef().InstanceId() == pms.PreprepareMessage.content.SignedHeader().InstanceId()
+//@   |      && p.PreprepareBlockRef().BlockHeight() == pms.PreprepareMessage.content.SignedHeader().BlockHeight() && p.PreprepareBlockRef().View() == pms.PreprepareMessage.content.SignedHeader().View()
+//@   |      && p.PreprepareBlockRef().BlockHash() == pms.PreprepareMessage.content.SignedHeader().BlockHash()
+//@   |      && content(p.PreprepareBlockRef().Raw()) == BlockRefBytes(protocol.LEAN_HELIX_PREPREPARE, pms.PreprepareMessage.content.SignedHeader().InstanceId(), pms.PreprepareMessage.content.SignedHeader().BlockHeight(), pms.PreprepareMessage.content.SignedHeader().View(), content(pms.PreprepareMessage.content.SignedHeader().BlockHash()))
+//@   |      && p.PreprepareSender().MemberId() == pms.PreprepareMessage.content.Sender().MemberId() && p.PreprepareSender().Signature() == pms.PreprepareMessage.content.Sender().Signature())
+//@   | && (!isnil(pms.PrepareMessages) ==> p.PrepareBlockRef().MessageType() == protocol.LEAN_HELIX_PREPARE && p.PrepareBlockRef().InstanceId() == pms.PrepareMessages[0].content.SignedHeader().InstanceId()
+//@   |      && p.PrepareBlockRef().BlockHeight() == pms.PrepareMessages[0].content.SignedHeader().BlockHeight() && p.PrepareBlockRef().View() == pms.PrepareMessages[0].content.SignedHeader().View()
+//@   |      && p.PrepareBlockRef().BlockHash() == pms.PrepareMessages[0].content.SignedHeader().BlockHash()
+//@   |      && content(p.PrepareBlockRef().Raw()) == BlockRefBytes(protocol.LEAN_HELIX_PREPARE, pms.PrepareMessages[0].content.SignedHeader().InstanceId(), pms.PrepareMessages[0].content.SignedHeader().BlockHeight(), pms.PrepareMessages[0].content.SignedHeader().View(), content(pms.PrepareMessages[0].content.SignedHeader().BlockHash()))
+//@   |      && seq_len(p, "PrepareSenders") == len(pms.PrepareMessages)
+//@   |      && (forall cj int :: 0 <= cj && cj < len(pms.PrepareMessages) ==> seq_at(p, "PrepareSenders", cj).MemberId() == pms.PrepareMessages[cj].content.Sender().MemberId()
+//@   |            && seq_at(p, "PrepareSenders", cj).Signature() == pms.PrepareMessages[cj].content.Sender().Signature()))
 //@ func CreatePreparedProofBuilderFromPreparedMessages
-//@   props C20 C12
+//@   props C20 C12 C11
+//@   ensures [the-certificate-copied] preparedMessages != nil ==> CertCopied(result, preparedMessages)
 //@   requires [a-prepared-certificate-has-at-least-one-prepare] CertOK(preparedMessages)
 //@   ensures [nil-iff-no-certificate] (result == nil) == (preparedMessages == nil)
 //@   ensures [proposal] preparedMessages != nil && preparedMessages.PreprepareMessage != nil ==> result.PreprepareBlockRef != nil && result.PreprepareSender != nil
@@ -96,17 +123,18 @@ package messagesfactory
 //@     invariant [proposal-sender-kept] preprepareMessage != nil ==> ppSender != nil && alive[ppSender] && ppSender.MemberId == preprepareMessage.content.Sender().MemberId() && ppSender.Signature == preprepareMessage.content.Sender().Signature()
 
 //@ func (*MessageFactory).CreateViewChangeMessageContentBuilder
-//@   props C20
+//@   props C20 C11
 //@   requires [A-KM-SIGN] SignsAs(f.keyManager, f.memberId)
 //@   requires [a-prepared-certificate-has-at-least-one-prepare] CertOK(preparedMessages)
 //@   ensures result != nil && result.SignedHeader != nil && result.Sender != nil
 //@   ensures result.SignedHeader.MessageType == protocol.LEAN_HELIX_VIEW_CHANGE && result.SignedHeader.InstanceId == f.instanceId && result.SignedHeader.BlockHeight == blockHeight && result.SignedHeader.View == view
 //@   ensures (result.SignedHeader.PreparedProof == nil) == (preparedMessages == nil)
+//@   ensures [the-proof-builder-is-the-copy-of-the-certificate] preparedMessages != nil ==> CertCopied(result.SignedHeader.PreparedProof, preparedMessages)
 //@   ensures result.Sender.MemberId == f.memberId
 //@   ensures [signed-bytes-are-the-header-bytes] VerifiedMsg(f.keyManager, blockHeight, VCHeaderBytes(protocol.LEAN_HELIX_VIEW_CHANGE, f.instanceId, blockHeight, view, result.SignedHeader.PreparedProof), f.memberId, result.Sender.Signature)
 
 //@ func (*MessageFactory).CreateViewChangeMessage
-//@   props C20
+//@   props C20 C11
 //@   requires [A-KM-SIGN] SignsAs(f.keyManager, f.memberId)
 //@   requires [a-prepared-certificate-has-at-least-one-prepare] CertOK(preparedMessages)
 //@   ensures result != nil && result.content != nil
@@ -117,6 +145,7 @@ package messagesfactory
 //@   ensures (preparedMessages == nil) == (result.content.SignedHeader().PreparedProof() == nil || len(result.content.SignedHeader().PreparedProof().Raw()) == 0)
 //@   ensures preparedMessages != nil && preparedMessages.PreprepareMessage != nil ==> result.block == preparedMessages.PreprepareMessage.block
 //@   ensures preparedMessages == nil ==> result.block == nil
+//@   ensures [C11:the-proof-read-back-from-the-vote-is-the-certificate] preparedMessages != nil ==> ProofOfCert(result.content.SignedHeader().PreparedProof(), preparedMessages)
 // A-MB-RT (assumed at call sites): a vote the factory builds is canonical - encoding the fields read back from it
 // field by field gives its own header bytes again (exercised by the bounded round-trip run)
 //@   assume [A-MB-RT.a-built-vote-is-canonical] content(result.content.SignedHeader().Raw()) == ReencVC(result.content.SignedHeader())
